@@ -56,7 +56,14 @@ Definition admissible (reg : registry) (array_dims axes : list string) (e : mexp
         set_eqb (flat_map (fun k => k) keys) axes && pairwise_disjoint keys &&
         forallb (fun k => Nat.leb (List.length k) (List.length (hd [] keys))) keys &&
         forallb (fun fk : factor * (list string * varinfo) =>
-                   f_interp (fst fk) || fits array_dims (snd (snd fk))) (combine e kvs)
+                   if f_interp (fst fk)
+                   then (* interpolated only when nothing registered for that block is at the
+                           array's position *)
+                        match find_key (fst (snd fk)) reg with
+                        | Some l => negb (existsb (fits array_dims) l)
+                        | None => false
+                        end
+                   else fits array_dims (snd (snd fk))) (combine e kvs)
       end
     end
   end.
